@@ -20,7 +20,7 @@ sys.path.insert(0, os.path.dirname(os.path.dirname(os.path.abspath(__file__))))
 import vlib, biffgen
 
 ASSUMPTIONS = [
-    "code page 1200 (BIFF8 Unicode strings); BIFF2-5 code-page strings are not modelled",
+    "BIFF8 (Unicode strings, whatever the CodePage record says: any value and no record are generated and modelled since the repair of audit-2 finding XLS-1); BIFF2-5 byte strings under a code page are not modelled (a non-BIFF8 BOF answers 'unmodelled')",
     "SST count below 2^31 and cch below 2^16 as the record fields impose; a string's formatting runs and ExtRst are opaque bytes",
     "a formula's STRING value may continue in CONTINUE records (modelled: string_arm); a LABEL value longer than one record is outside the statement and the model",
 ]
@@ -482,7 +482,16 @@ def run_files(ctx, n, tag):
             sheets.append((hbn, nm, cells))
             exp_sheets.append("%s=%s" % (utf8hex(list(key)), ",".join(
                 "%d:%d:%s" % (r, c, utf8hex(v)) for (r, c), v in sorted(exp_cells.items()))))
-        wb = biffgen.workbook_stream(data, conts, sheets)
+        cp = rng.choice(biffgen.CODEPAGES)
+        if NESTED["ok"] and rng.random() < 0.25:
+            # a chart substream nested in the sheet: its records are not the sheet's
+            sheets = [(hb_, nm_, with_nested(rng, cs_, len(strs))) for (hb_, nm_, cs_) in sheets]
+            ctx.count("file:nested-substream")
+        extra = real_globals(rng) if rng.random() < 0.5 else b""
+        if rng.random() < 0.5:
+            sheets = [(hb_, nm_, [("raw", dimensions_rec(rng))] + cs_) for (hb_, nm_, cs_) in sheets]
+        wb = biffgen.workbook_stream(data, conts, sheets, extra_globals=extra, codepage=cp)
+        ctx.count("file:codepage:%s" % ("none" if cp is None else cp))
         path = os.path.join(tmp, "%s.xls" % cid)
         open(path, "wb").write(biffgen.xls_file(wb))
         impl_lines.append("%s\tc12_open\t%s" % (cid, path))
@@ -529,6 +538,72 @@ def run_files(ctx, n, tag):
         else:
             drop_file(l.split("\t")[2])
 
+def real_globals(rng):
+    """globals records of real files that cannot change a string and that C12's model reads by their
+    length check (Date1904, XF, FORMAT, ExternSheet) or not at all (RRTabId, Window1, Font ...)"""
+    pool = [(0x0022, struct.pack("<H", rng.randrange(2))),
+            (0x00E0, struct.pack("<HHHHHHIIH", 0, rng.choice([0, 14, 164]), 1, 0x20, 0, 0, 0, 0, 0x20C0)),
+            (0x041E, struct.pack("<H", 164) + biffgen.xl_string(0, list(b"yyyy-mm-dd"))),
+            (0x041E, struct.pack("<H", 165) + biffgen.xl_string(1, [0x5E74, 0x6708])),
+            (0x0017, struct.pack("<HHhh", 1, 0, 0, 0)),
+            (0x013D, struct.pack("<H", 1)), (0x003D, bytes(18)), (0x0031, bytes(14) + b"\x05\x00Arial"),
+            (0x00E1, struct.pack("<H", 1200)), (0x005C, b"\x03\x00\x00abc".ljust(112, b" ")), (0x008C, struct.pack("<HH", 1, 1))]
+    return b"".join(biffgen.rec(t, b) for t, b in rng.sample(pool, rng.randrange(1, 6)))
+
+def dimensions_rec(rng):
+    """DIMENSIONS of a sheet substream (BIFF8: 14 bytes; the 10-byte form of BIFF5 is accepted too)"""
+    if rng.random() < 0.8:
+        return biffgen.rec(0x0200, struct.pack("<IIHHH", 0, rng.randrange(1, 70000), 0, rng.randrange(1, 257), 0))
+    return biffgen.rec(0x0200, struct.pack("<HHHHH", 0, rng.randrange(1, 65536), 0, rng.randrange(1, 257), 0))
+
+# a substream nested in a worksheet substream (the chart of an embedded chart object, [MS-XLS]
+# 2.1.7.20.5): BOF(dt = chart) ... EOF; its series cache is made of LABEL / NUMBER / BOOLERR records
+NESTED = {"ok": False}
+BOF_CHART = biffgen.rec(0x0809, struct.pack("<HHHHII", 0x0600, 0x0020, 0x0DBB, 0x07CC, 0, 0x0306))
+
+def nested_block(rng, nstr):
+    inner = b""
+    for _ in range(rng.randrange(0, 5)):
+        k = rng.randrange(5)
+        if k == 0:
+            inner += biffgen.cell_records(("label", rng.randrange(4), rng.randrange(4), 0, [0x58, 0x59]))
+        elif k == 1:
+            inner += biffgen.cell_records(("sst", rng.randrange(4), rng.randrange(4), rng.randrange(nstr + 1)))
+        elif k == 2:
+            inner += biffgen.rec(0x0203, struct.pack("<HHHd", rng.randrange(4), rng.randrange(4), 0, 2.5))
+        elif k == 3:
+            inner += biffgen.cell_records(("fstring", rng.randrange(4), rng.randrange(4), 1, [0x4E2D]))
+        else:
+            inner += biffgen.rec(0x1001, bytes(12)) + biffgen.rec(0x0200, bytes(14))
+    if rng.random() < 0.15:        # a substream inside the nested one
+        inner += BOF_CHART + biffgen.cell_records(("label", 0, 0, 0, [0x5A])) + biffgen.EOF
+    return BOF_CHART + inner + biffgen.EOF
+
+def with_nested(rng, cells, nstr):
+    out = list(cells)
+    for _ in range(rng.choice([1, 1, 2])):
+        out.insert(rng.randrange(len(out) + 1), ("raw", nested_block(rng, nstr)))
+    return out
+
+def probe_nested(ctx):
+    """does the tree under check skip substreams nested in a sheet (repair of audit-2 finding XLS-2 in
+    the sheet loop, which C12's model wb_sheet follows)?  On a tree without it the nested-substream
+    cases are not run (the model is that commit ahead): said in the evidence."""
+    tmp = os.path.join(vlib.CACHE, "tmp", "c12")
+    os.makedirs(tmp, exist_ok=True)
+    chart = BOF_CHART + biffgen.cell_records(("label", 0, 0, 0, [0x58, 0x58])) + biffgen.EOF
+    wb = biffgen.workbook_stream(EMPTY_SST, [], [(0, [0x53], [("label", 0, 0, 0, [0x61]), ("raw", chart), ("label", 1, 0, 0, [0x62])])])
+    path = os.path.join(tmp, "probe_nested.xls")
+    open(path, "wb").write(biffgen.xls_file(wb))
+    i = ctx.run_impl(["pn\tc12_open\t%s" % path]).get("pn")
+    m = ctx.run_model(["pn\tc12_open\t%s" % wb.hex()]).get("pn")
+    NESTED["ok"] = (i == m)
+    ctx.extra["nested_substream_cases"] = "run" if NESTED["ok"] else (
+        "NOT run: the tree under check reads the records of a substream nested in a sheet as cells of the sheet "
+        "(impl %s, model %s): audit-2 finding XLS-2, whose repair C12's model of the sheet loop already follows" % (i, m))
+    if not NESTED["ok"]:
+        ctx.notes.append(ctx.extra["nested_substream_cases"])
+
 def run_coq_workbooks(ctx, n, tag):
     """whole workbooks written by the extracted Coq writer workbook_stream (the one the theorem
     C12_workbook_strings is about); Python only wraps the stream into a compound file"""
@@ -565,9 +640,11 @@ def run_coq_workbooks(ctx, n, tag):
                     cells.append("%s:%d:%d:%d:%s" % (rng.choice("lf"), row, rng.randrange(0, 4), hb, units_hex(us)))
                 row += rng.randrange(1, 3)
             sheets.append("%d,%s,%s" % (hbn, units_hex(nm), "+".join(cells)))
-        lines.append("%s%d\tc12_wbenc\t%d\t%s\t%s\t%s" % (
+        cp = rng.choice(biffgen.CODEPAGES)           # the CodePage record of the globals: any value, or none
+        ctx.count("wb:codepage:%s" % ("none" if cp is None else cp))
+        lines.append("%s%d\tc12_wbenc\t%d\t%s\t%s\t%s\t%s" % (
             tag, i, rng.randrange(0, 1000), ";".join(units_hex(s) for s in strs),
-            ";".join(layout_text(l) for l in lays), ";".join(sheets)))
+            ";".join(layout_text(l) for l in lays), ";".join(sheets), "-" if cp is None else cp))
     enc = ctx.run_model(lines)
     impl_lines, meta = [], {}
     for l in lines:
@@ -701,14 +778,14 @@ def fstr_cases(ctx):
 
 EMPTY_SST = struct.pack("<II", 0, 0)
 
-def fstr_file(path, cells):
+def fstr_file(path, cells, codepage=1200):
     """cells = [(row, col, STRING body, CONTINUE bodies)]; after every formula a LABEL sentinel on the
     next row; returns the Workbook stream"""
     recs = []
     for (row, col, data, conts) in cells:
         recs.append(("fstringc", row, col, data, conts))
         recs.append(("label", row + 1, 0, 0, [0x7A, 0x30 + (row // 2) % 10]))
-    wb = biffgen.workbook_stream(EMPTY_SST, [], [(0, [0x46], recs)])
+    wb = biffgen.workbook_stream(EMPTY_SST, [], [(0, [0x46], recs)], codepage=codepage)
     open(path, "wb").write(biffgen.xls_file(wb))
     return wb
 
@@ -750,7 +827,7 @@ def run_fstring_cases(ctx, cases, tag, per_file=6):
             fid = "%sF%s%d" % (tag, suffix, g)
             path = os.path.join(tmp, fid + ".xls")
             cells = [(2 * j, j % 3, it[3], it[4]) for j, it in enumerate(grp)]
-            wb = fstr_file(path, cells)
+            wb = fstr_file(path, cells, codepage=rng.choice(biffgen.CODEPAGES))
             il.append("%s\tc12_open\t%s" % (fid, path))
             ml.append("%s\tc12_open\t%s" % (fid, wb.hex()))
             where[fid] = (grp, path)
@@ -888,10 +965,184 @@ def run_corpus(ctx):
     wit = ([[0x61, 0xD83D, 0xDE00, 0x62]], [(0, 1, [(2, 1)], None, None, [])], ["astral"], 1)
     run_sst_cases(ctx, [wit], "w", mutate=False)
 
+# ---------------------------------------------------------------- audit-2 finding XLS-1: CodePage record of a BIFF8 workbook
+def xls1_workbook(cp):
+    """a small BIFF8 workbook whose every string kind is present in both packings: sheet names
+    'Tab€' (16-bit) and 'café' (8-bit), shared strings 'Titel', '€uro', 'café', U+1F600, a LABEL, a
+    formula string — with the CodePage record cp (None: no record)"""
+    units = lambda t: [u for ch in t for u in ([ord(ch)] if ord(ch) < 0x10000 else
+                                              [0xD800 + ((ord(ch) - 0x10000) >> 10), 0xDC00 + ((ord(ch) - 0x10000) & 0x3FF)])]
+    strs = ["Titel", "\u20acuro", "caf\u00e9", "\U0001F600"]
+    sst = struct.pack("<II", len(strs), len(strs))
+    for t in strs:
+        u = units(t)
+        hb = 0 if all(x < 256 for x in u) else 1
+        sst += struct.pack("<HB", len(u), hb) + biffgen.seg(hb, u)
+    sh1 = [("sst", 0, i, i) for i in range(4)] + [("label", 1, 0, 0, units("abc")), ("label", 1, 1, 1, units("\u00c5r")),
+                                                  ("fstring", 2, 0, 0, units("xyz")), ("fstring", 2, 1, 1, units("\u65e5\u672c"))]
+    sh2 = [("sst", 0, 0, 2)]
+    wb = biffgen.workbook_stream(sst, [], [(1, units("Tab\u20ac"), sh1), (0, units("caf\u00e9"), sh2)], codepage=cp)
+    h = lambda t: t.encode("utf-8").hex()
+    want = "ok:%s=%s|%s=%s" % (
+        h("Tab\u20ac"), ",".join(["0:%d:%s" % (i, h(t)) for i, t in enumerate(strs)]
+                                 + ["1:0:" + h("abc"), "1:1:" + h("\u00c5r"), "2:0:" + h("xyz"), "2:1:" + h("\u65e5\u672c")]),
+        h("caf\u00e9"), "0:0:" + h("caf\u00e9"))
+    return wb, want
+
+# tests/sheet_name_parsing.xls of the repository: BIFF8 written by JExcelApi, CodePage 1252; the
+# pinned test only looks at the sheet name (which survived through the NUL stripping)
+XLS1_FIXTURE = ("sheet_name_parsing.xls",
+                "ok:" + "Sheet1".encode().hex() + "=" + ",".join(
+                    "0:%d:%s" % (i, t.encode("utf-8").hex()) for i, t in enumerate(
+                        ["Titel", "Orginaltitel", "\u00c5r", "Regiss\u00f6r", "Ditt betyg", "Datum", "IMDB#"])))
+
+def run_xls1_witnesses(ctx):
+    """corpus witnesses of the former defect: run on every quick run, must satisfy the spec"""
+    tmp = os.path.join(vlib.CACHE, "tmp", "c12")
+    os.makedirs(tmp, exist_ok=True)
+    il, ml, want = [], [], {}
+    for cp in (1252, 932, 65001, 437, 54321, 1200, None):
+        cid = "kcp%s" % ("none" if cp is None else cp)
+        wb, w = xls1_workbook(cp)
+        path = os.path.join(tmp, cid + ".xls")
+        open(path, "wb").write(biffgen.xls_file(wb))
+        il.append("%s\tc12_open\t%s" % (cid, path)); ml.append("%s\tc12_open\t%s" % (cid, wb.hex())); want[cid] = w
+    fx = os.path.join(vlib.FIXTURE_DIR, XLS1_FIXTURE[0])
+    if os.path.exists(fx):
+        import pwgen
+        st = pwgen.cfb_stream(open(fx, "rb").read(), "Workbook")
+        il.append("kcpfx\tc12_open\t%s" % fx); ml.append("kcpfx\tc12_open\t%s" % st.hex()); want["kcpfx"] = XLS1_FIXTURE[1]
+    else:
+        ctx.notes.append("fixture %s not found: the XLS-1 corpus witness on the repository's own file was not run" % fx)
+    impl, model = ctx.run_impl(il), ctx.run_model(ml)
+    for l in il:
+        cid = l.split("\t", 1)[0]
+        ctx.traces += 1
+        ctx.count("corpus:xls1-codepage")
+        ctx.nontrivial(l)
+        if impl.get(cid) != model.get(cid):
+            ctx.disagreements.append({"function": "Xls::new(BIFF8, CodePage record)", "case": l,
+                                      "impl": impl.get(cid), "model": model.get(cid)})
+        if impl.get(cid) != want[cid]:
+            ctx.violations.append({"case": l, "expected": want[cid], "actual": impl.get(cid), "model": model.get(cid),
+                                   "what": "BIFF8 workbook whose CodePage record is not 1200 (audit-2 XLS-1): strings must read as stored"})
+
+# ---------------------------------------------------------------- BIFF5 / BIFF7 byte strings (audit-2 finding XLS-6b)
+# Outside C12's model and theorems (a BIFF5 BOF answers 'unmodelled'; the statement's packings — 8-bit
+# compressed / 16-bit — are BIFF8's): witnesses only, real reader against the text the writer stored.
+# A BIFF5 string has no flag byte: cch bytes of the workbook's code page, one OR TWO per character.
+BIFF5_TEXTS = [
+    (1252, "cp1252", ["abc", "caf\u00e9 \u20ac", "Regiss\u00f6r"]),
+    (1251, "cp1251", ["abc", "\u041f\u0440\u0438\u0432\u0435\u0442"]),
+    (10000, "mac_roman", ["abc", "caf\u00e9"]),
+    (932, "cp932", ["abc", "\u3042", "\u65e5\u672c\u8a9e abc \uff71"]),          # Shift-JIS: hiragana, kanji, half-width katakana
+    (936, "gbk", ["abc", "\u4e2d\u6587 x"]),
+    (949, "cp949", ["abc", "\ud55c\uae00"]),
+    (950, "big5", ["abc", "\u4e2d\u6587"]),
+    (None, "latin-1", ["abc", "caf\u00e9 \u00ff"]),     # no CodePage record: the bytes read as Latin-1
+]
+
+def biff5_workbook(cp, codec, texts):
+    """Book stream of a BIFF5 workbook: sheet name = texts[-1], LABEL cells of every text in column 0,
+    FORMULA + STRING cells in column 1"""
+    rec = biffgen.rec
+    bof = lambda dt: rec(0x0809, struct.pack("<HHHH", 0x0500, dt, 0x0DBB, 0x07CC))
+    name = texts[-1].encode(codec)
+    body = rec(0x0200, struct.pack("<HHHHH", 0, len(texts), 0, 2, 0))
+    for i, t in enumerate(texts):
+        b = t.encode(codec)
+        body += rec(0x0204, struct.pack("<HHHH", i, 0, 0, len(b)) + b)
+        body += rec(0x0006, struct.pack("<HHH", i, 1, 0) + biffgen.FORMULA_STRING_STUB) + rec(0x0207, struct.pack("<H", len(b)) + b)
+    sub = bof(0x0010) + body + biffgen.EOF
+    pre = bof(0x0005) + (rec(0x0042, struct.pack("<H", cp)) if cp is not None else b"") + rec(0x00E0, bytes(16))
+    bs = lambda pos: rec(0x0085, struct.pack("<IBB", pos, 0, 0) + bytes([len(name)]) + name)
+    glob = pre + bs(len(pre) + len(bs(0)) + len(biffgen.EOF)) + biffgen.EOF
+    h = lambda t: t.encode("utf-8").hex()
+    want = "ok:%s=%s" % (h(texts[-1]), ",".join("%d:0:%s,%d:1:%s" % (i, h(t), i, h(t)) for i, t in enumerate(texts)))
+    return glob + sub, want
+
+def run_biff5_witnesses(ctx):
+    tmp = os.path.join(vlib.CACHE, "tmp", "c12")
+    os.makedirs(tmp, exist_ok=True)
+    il, ml, want = [], [], {}
+    for cp, codec, texts in BIFF5_TEXTS:
+        cid = "kb5_%s" % cp
+        st, w = biff5_workbook(cp, codec, texts)
+        path = os.path.join(tmp, cid + ".xls")
+        open(path, "wb").write(biffgen.cfb_write([("Book", st)]))
+        il.append("%s\tc12_open\t%s" % (cid, path)); ml.append("%s\tc12_open\t%s" % (cid, st.hex())); want[cid] = w
+    impl, model = ctx.run_impl(il), ctx.run_model(ml)
+    for l in il:
+        cid = l.split("\t", 1)[0]
+        ctx.traces += 1
+        ctx.count("corpus:biff5-byte-strings(model: %s)" % model.get(cid))
+        if impl.get(cid) != want[cid]:
+            ctx.violations.append({"case": l, "expected": want[cid], "actual": impl.get(cid), "model": model.get(cid),
+                                   "what": "BIFF5 workbook: byte strings of the workbook's code page (audit-2 XLS-6b) must read as stored"})
+
+UNMODELLED_GLOBALS = {0x0018: "Lbl"}
+UNMODELLED_SHEET = {0x0203: "Number", 0x0205: "BoolErr", 0x027E: "RK", 0x00BD: "MulRk", 0x00E5: "MergeCells", 0x0006: "Formula"}
+
+def why_unmodelled(st):
+    """the record kinds of a Workbook stream that C12's reduced parse_workbook declines (the reason
+    printed next to a fixture's name)"""
+    i, first_eof, why = 0, False, []
+    while i + 4 <= len(st):
+        t, l = struct.unpack("<HH", st[i:i + 4])
+        b = st[i + 4:i + 4 + l]; i += 4 + l
+        if t == 0 and l == 0:
+            break
+        if t == 0x0809 and len(b) >= 2 and struct.unpack("<H", b[:2])[0] != 0x0600:
+            why.append("BOF of BIFF version 0x%04x" % struct.unpack("<H", b[:2])[0])
+        name = (UNMODELLED_SHEET if first_eof else UNMODELLED_GLOBALS).get(t)
+        if name and name not in why:
+            why.append(name)
+        if t == 0x000A:
+            first_eof = True
+    return ", ".join(why[:4]) or "?"
+
+def run_fixtures(ctx):
+    """every .xls / .xla fixture of the repository through Xls::new + sheet_names + worksheet_range
+    and through C12's model on its Workbook stream.  Corpus rule: a fixture on which the model
+    answers 'unmodelled' is listed by name with the reason (vlib.fixture_report), not skipped."""
+    import pwgen
+    il, ml, names = [], [], {}
+    for ext, path in vlib.fixtures({"xls", "xla"}):
+        name = os.path.basename(path)
+        cid = "fx_" + name.replace(".", "_").replace(" ", "_")
+        try:
+            data = open(path, "rb").read()
+            st = pwgen.cfb_stream(data, "Workbook") or pwgen.cfb_stream(data, "Book")
+        except Exception:
+            st = None
+        if st is None:
+            vlib.fixture_report(ctx, name, "no-workbook-stream (damaged container: C13's domain)")
+            continue
+        il.append("%s\tc12_open\t%s" % (cid, path)); ml.append("%s\tc12_open\t%s" % (cid, st.hex()))
+        names[cid] = (name, st)
+    impl, model = ctx.run_impl(il), ctx.run_model(ml)
+    for l in il:
+        cid = l.split("\t", 1)[0]
+        name, st = names[cid]
+        i, m = impl.get(cid), model.get(cid)
+        ctx.traces += 1
+        if m == "unmodelled":
+            vlib.fixture_report(ctx, name, "unmodelled", why_unmodelled(st))
+        elif i == m:
+            vlib.fixture_report(ctx, name, "agree", (i or "")[:3])
+            ctx.nontrivial(l)
+        else:
+            vlib.fixture_report(ctx, name, "DISAGREE")
+            ctx.disagreements.append({"function": "Xls::new(repository fixture)", "case": l, "impl": i, "model": m})
+
 # ---------------------------------------------------------------- entry points
 def run(ctx):
     rng = ctx.rng
+    probe_nested(ctx)
     run_corpus(ctx)
+    run_xls1_witnesses(ctx)
+    run_biff5_witnesses(ctx)
+    run_fixtures(ctx)
     run_sst_cases(ctx, boundary_tables(rng), "b", mutate=False)
     tabs = []
     for i in range(ctx.scale(4000, 80000)):
